@@ -1,7 +1,7 @@
 (* C14 -- sensors are decoded only from registers that were actually fetched.
    Tables, read commands and the two meter filter limits are GENERATED from /repo on every run. *)
 From Coq Require Import ZArith List Bool String.
-From GW Require Import Prelude PyStr PyFloat Sensors TableChecks TablesGen SensorProofs ETCaps ETCapsProofs TableProofs ETProg ETGen ETRefine.
+From GW Require Import Prelude PyStr PyFloat Sensors TableChecks TablesGen SensorProofs ETCaps ETCapsProofs TableProofs ETProg ETGen ETRefine DTProg DTGen DTRefine.
 Import ListNotations.
 Open Scope Z_scope.
 
@@ -48,9 +48,18 @@ Theorem C14_read_runtime_data_is_the_model : forall c e lose, (meter_level c <= 
   run_rrd e lose et_read_runtime_data c = read_runtime_data c e lose.
 Proof. exact read_runtime_data_refined. Qed.
 
+(* DT: a sensor list is decoded only from the answer to its own read request, transmitted and answered in the same call (model of
+   Model/DTProg.v, proved equal to the translated source in C15_dt_read_runtime_data_is_the_model) *)
+Theorem C14_dt_decodes_fetched_blocks : forall o_running o_meter hm,
+  match dt_read_runtime_data o_running o_meter hm with
+  | (_, reads, DReturned (Some d)) => (dd_running d = true -> In false reads /\ o_running = None) /\ (dd_meter d = true -> In true reads /\ o_meter = None)
+  | _ => True end.
+Proof. exact dt_decodes_fetched_blocks. Qed.
+
 Print Assumptions C14_windows_partial.
 Print Assumptions C14_mppt_refuted.
 Print Assumptions C14_variants_are_sublists.
 Print Assumptions C14_no_short_read.
 Print Assumptions C14_meter_window_always_covers.
 Print Assumptions C14_read_runtime_data_is_the_model.
+Print Assumptions C14_dt_decodes_fetched_blocks.
